@@ -1,9 +1,13 @@
 package objectdeployments
 
 import (
+	"context"
 	"fmt"
 
 	"github.com/stretchr/testify/mock"
+	"sigs.k8s.io/controller-runtime/pkg/client"
+
+	corev1alpha1 "package-operator.run/apis/core/v1alpha1"
 
 	"package-operator.run/internal/adapters"
 	"package-operator.run/internal/testutil/adaptermocks"
@@ -73,6 +77,62 @@ func (os *defaultObjectSetGetter) getObjects() ([]objectIdentifier, error) {
 			namespace: objNamespace,
 			group:     unstructuredObj.GroupVersionKind().Group,
 			kind:      unstructuredObj.GroupVersionKind().Kind,
+		}
+	}
+	return result, nil
+}
+
+// sliceAwareObjectSetGetter is implemented by getters that can also look at
+// the objects living in the ObjectSlices referenced by an ObjectSet.
+type sliceAwareObjectSetGetter interface {
+	getObjectsIncludingSlices(ctx context.Context, reader client.Reader) ([]objectIdentifier, error)
+}
+
+// getObjectsIncludingSlices returns the objects inlined into the phases of the ObjectSet
+// and the objects of all ObjectSlices referenced by these phases.
+// The slices are only read. Failing to get a slice is an error,
+// because the objects of the revision are not known without it.
+func (os *defaultObjectSetGetter) getObjectsIncludingSlices(
+	ctx context.Context, reader client.Reader,
+) ([]objectIdentifier, error) {
+	result, err := os.getObjects()
+	if err != nil {
+		return nil, err
+	}
+
+	objectSetNamespace := os.objectSet.ClientObject().GetNamespace()
+	_, clusterScoped := os.objectSet.(*adapters.ClusterObjectSetAdapter)
+	for _, phase := range os.objectSet.GetPhases() {
+		for _, sliceName := range phase.Slices {
+			var sliceObjects []corev1alpha1.ObjectSetObject
+			if clusterScoped {
+				slice := &corev1alpha1.ClusterObjectSlice{}
+				if err := reader.Get(ctx, client.ObjectKey{Name: sliceName}, slice); err != nil {
+					return nil, fmt.Errorf("getting ClusterObjectSlice %s: %w", sliceName, err)
+				}
+				sliceObjects = slice.Objects
+			} else {
+				slice := &corev1alpha1.ObjectSlice{}
+				key := client.ObjectKey{Name: sliceName, Namespace: objectSetNamespace}
+				if err := reader.Get(ctx, key, slice); err != nil {
+					return nil, fmt.Errorf("getting ObjectSlice %s: %w", key, err)
+				}
+				sliceObjects = slice.Objects
+			}
+
+			for i := range sliceObjects {
+				unstructuredObj := sliceObjects[i].Object
+				objNamespace := unstructuredObj.GetNamespace()
+				if len(objNamespace) == 0 {
+					objNamespace = objectSetNamespace
+				}
+				result = append(result, objectSetObjectIdentifier{
+					name:      unstructuredObj.GetName(),
+					namespace: objNamespace,
+					group:     unstructuredObj.GroupVersionKind().Group,
+					kind:      unstructuredObj.GroupVersionKind().Kind,
+				})
+			}
 		}
 	}
 	return result, nil
